@@ -25,6 +25,9 @@ def all_names(rnd, depth=3):
             out.append(f"{p}/{q}")
             if rnd is None or True:
                 out.append(f"{p}/{q}/deep")
+    # MH keeps messages as files named by numbers: components that are all
+    # digits collide with message keys of the parent folder
+    out += ["a/7", "c/2024", "b/12/deep", "a_b/0", "7up"]
     return out
 
 
